@@ -26,23 +26,23 @@ fn block9a<T: Copy>(c: &[T; 12]) -> [T; 9] {
 // ------------------------------------------------------------------------------------------
 
 macro_rules! rot3a {
-    (f32, $t:expr, $c:expr, $q:expr, $p:expr, $r:expr, $rqp:expr, $rt:expr, $ctx:expr) => {{
+    (f32, $t:expr, $c:expr, $q:expr, $p:expr, $r:expr, $rqp:expr, $rt:expr, $eq:expr, $ec:expr, $ctx:expr) => {{
         let c = $c;
         let m = Mat3A::from_quat($q);
-        logic::rot_entries::<f32>(cx!($t, "Mat3A"), "rot/from_quat-entries", "Mat3A::from_quat", &m.to_cols_array(), $r, 1.0, $ctx)?;
-        logic::rot_action::<f32>(cx!($t, "Mat3A"), "Mat3A::from_quat(q) * Vec3A", &(m * Vec3A::from_array(c.v)).to_array(), $r, &c.v, 1.0, $ctx)?;
-        logic::rot_action::<f32>(cx!($t, "Mat3A"), "Mat3A::from_quat(q) * Vec3", &(m * Vec3::from_array(c.v)).to_array(), $r, &c.v, 1.0, $ctx)?;
+        logic::rot_entries::<f32>(cx!($t, "Mat3A"), "rot/from_quat-entries", "Mat3A::from_quat", &m.to_cols_array(), $r, 1.0, $eq, $ctx)?;
+        logic::rot_action::<f32>(cx!($t, "Mat3A"), "Mat3A::from_quat(q) * Vec3A", &(m * Vec3A::from_array(c.v)).to_array(), $r, &c.v, 1.0, $eq, $ctx)?;
+        logic::rot_action::<f32>(cx!($t, "Mat3A"), "Mat3A::from_quat(q) * Vec3", &(m * Vec3::from_array(c.v)).to_array(), $r, &c.v, 1.0, $eq, $ctx)?;
         let q1 = Quat::from_mat3a(&m);
-        logic::quat_same::<f32>(cx!($t, "Quat"), "Quat::from_mat3a(Mat3A::from_quat(q))", &q1.to_array(), &c.q, 2.0, $ctx)?;
-        logic::rot_entries::<f32>(cx!($t, "Mat3A"), "rot/roundtrip-matrix", "Mat3A::from_quat(Quat::from_mat3a(Mat3A::from_quat(q)))", &Mat3A::from_quat(q1).to_cols_array(), $r, 3.0, $ctx)?;
-        logic::rot_entries::<f32>(cx!($t, "Mat3A"), "rot/compose", "Mat3A::from_quat(q) * Mat3A::from_quat(p)", &(m * Mat3A::from_quat($p)).to_cols_array(), $rqp, 3.0, $ctx)?;
-        logic::rot_entries::<f32>(cx!($t, "Mat3A"), "rot/inverse", "Mat3A::from_quat(q).inverse()", &m.inverse().to_cols_array(), $rt, 2.0, $ctx)?;
+        logic::quat_same::<f32>(cx!($t, "Quat"), "Quat::from_mat3a(Mat3A::from_quat(q))", &q1.to_array(), &c.q, 2.0, $eq, $ctx)?;
+        logic::rot_entries::<f32>(cx!($t, "Mat3A"), "rot/roundtrip-matrix", "Mat3A::from_quat(Quat::from_mat3a(Mat3A::from_quat(q)))", &Mat3A::from_quat(q1).to_cols_array(), $r, 3.0, $eq, $ctx)?;
+        logic::rot_entries::<f32>(cx!($t, "Mat3A"), "rot/compose", "Mat3A::from_quat(q) * Mat3A::from_quat(p)", &(m * Mat3A::from_quat($p)).to_cols_array(), $rqp, 3.0, $ec, $ctx)?;
+        logic::rot_entries::<f32>(cx!($t, "Mat3A"), "rot/inverse", "Mat3A::from_quat(q).inverse()", &m.inverse().to_cols_array(), $rt, 2.0, $eq, $ctx)?;
         // the two 3x3 forms of the same quaternion are the same matrix
         let m3 = Mat3::from_quat($q).to_cols_array();
         let ma = m.to_cols_array();
         $t.class(if (0..9).all(|i| m3[i].to_bits() == ma[i].to_bits()) { "Mat3-vs-Mat3A-from_quat:bit-identical" } else { "Mat3-vs-Mat3A-from_quat:differ-within-tolerance" });
     }};
-    (f64, $t:expr, $c:expr, $q:expr, $p:expr, $r:expr, $rqp:expr, $rt:expr, $ctx:expr) => {};
+    (f64, $t:expr, $c:expr, $q:expr, $p:expr, $r:expr, $rqp:expr, $rt:expr, $eq:expr, $ec:expr, $ctx:expr) => {};
 }
 macro_rules! qcast {
     (f32, $t:expr, $c:expr, $q:expr, $ctx:expr) => {{
@@ -74,59 +74,60 @@ macro_rules! rot_suite {
             let rt = &logic::m3_t(r);
             let ctx: &dyn Fn() -> String = &|| format!("q={} p={}", hexs(&c.q), hexs(&c.p));
             let (qn, m3n, m4n, an) = (stringify!($Q), stringify!($M3), stringify!($M4), stringify!($A));
+            let (eq, ec) = (c.eq, c.eq + c.ep);
 
             // the quaternion's own action
-            logic::rot_action::<$T>(cx!(t, qn), "q * v", &(q * v).to_array(), r, &c.v, 1.0, ctx)?;
+            logic::rot_action::<$T>(cx!(t, qn), "q * v", &(q * v).to_array(), r, &c.v, 1.0, eq, ctx)?;
             // quaternion -> 3x3
             let m3 = $M3::from_quat(q);
-            logic::rot_entries::<$T>(cx!(t, m3n), "rot/from_quat-entries", "Mat3::from_quat", &m3.to_cols_array(), r, 1.0, ctx)?;
-            logic::rot_action::<$T>(cx!(t, m3n), "Mat3::from_quat(q) * v", &(m3 * v).to_array(), r, &c.v, 1.0, ctx)?;
+            logic::rot_entries::<$T>(cx!(t, m3n), "rot/from_quat-entries", "Mat3::from_quat", &m3.to_cols_array(), r, 1.0, eq, ctx)?;
+            logic::rot_action::<$T>(cx!(t, m3n), "Mat3::from_quat(q) * v", &(m3 * v).to_array(), r, &c.v, 1.0, eq, ctx)?;
             // quaternion -> 4x4: block, exact border and zero translation, action on directions and points
             let m4 = $M4::from_quat(q);
             let c16 = m4.to_cols_array();
-            logic::rot_entries::<$T>(cx!(t, m4n), "rot/from_quat-entries", "Mat4::from_quat", &block9(&c16), r, 1.0, ctx)?;
+            logic::rot_entries::<$T>(cx!(t, m4n), "rot/from_quat-entries", "Mat4::from_quat", &block9(&c16), r, 1.0, eq, ctx)?;
             for (i, want) in [(3, 0.0), (7, 0.0), (11, 0.0), (12, 0.0), (13, 0.0), (14, 0.0), (15, 1.0)] {
                 cx!(t, m4n).exact("Mat4::from_quat", c16[i] as f64, want, &|| format!("border/translation entry {i}; {}", ctx()))?;
             }
-            logic::rot_action::<$T>(cx!(t, m4n), "Mat4::from_quat(q).transform_vector3", &m4.transform_vector3(v).to_array(), r, &c.v, 1.0, ctx)?;
-            logic::rot_action::<$T>(cx!(t, m4n), "Mat4::from_quat(q).transform_point3", &m4.transform_point3(pt).to_array(), r, &c.pt, 1.0, ctx)?;
+            logic::rot_action::<$T>(cx!(t, m4n), "Mat4::from_quat(q).transform_vector3", &m4.transform_vector3(v).to_array(), r, &c.v, 1.0, eq, ctx)?;
+            logic::rot_action::<$T>(cx!(t, m4n), "Mat4::from_quat(q).transform_point3", &m4.transform_point3(pt).to_array(), r, &c.pt, 1.0, eq, ctx)?;
             // quaternion -> affine
             let a = $A::from_quat(q);
             let c12 = a.to_cols_array();
-            logic::rot_entries::<$T>(cx!(t, an), "rot/from_quat-entries", "Affine3A::from_quat", &block9a(&c12), r, 1.0, ctx)?;
+            logic::rot_entries::<$T>(cx!(t, an), "rot/from_quat-entries", "Affine3A::from_quat", &block9a(&c12), r, 1.0, eq, ctx)?;
             for i in 9..12 {
                 cx!(t, an).exact("Affine3A::from_quat", c12[i] as f64, 0.0, &|| format!("translation entry {}; {}", i - 9, ctx()))?;
             }
-            logic::rot_action::<$T>(cx!(t, an), "Affine3A::from_quat(q).transform_vector3", &a.transform_vector3(v).to_array(), r, &c.v, 1.0, ctx)?;
-            logic::rot_action::<$T>(cx!(t, an), "Affine3A::from_quat(q).transform_point3", &a.transform_point3(pt).to_array(), r, &c.pt, 1.0, ctx)?;
+            logic::rot_action::<$T>(cx!(t, an), "Affine3A::from_quat(q).transform_vector3", &a.transform_vector3(v).to_array(), r, &c.v, 1.0, eq, ctx)?;
+            logic::rot_action::<$T>(cx!(t, an), "Affine3A::from_quat(q).transform_point3", &a.transform_point3(pt).to_array(), r, &c.pt, 1.0, eq, ctx)?;
 
             // matrix -> quaternion -> matrix, through whichever branch this rotation selects
             let q1 = $Q::from_mat3(&m3);
-            logic::quat_same::<$T>(cx!(t, qn), "Quat::from_mat3(Mat3::from_quat(q))", &q1.to_array(), &c.q, 2.0, ctx)?;
-            logic::rot_entries::<$T>(cx!(t, m3n), "rot/roundtrip-matrix", "Mat3::from_quat(Quat::from_mat3(Mat3::from_quat(q)))", &$M3::from_quat(q1).to_cols_array(), r, 3.0, ctx)?;
-            logic::rot_action::<$T>(cx!(t, qn), "Quat::from_mat3(Mat3::from_quat(q)) * v", &(q1 * v).to_array(), r, &c.v, 3.0, ctx)?;
+            logic::quat_same::<$T>(cx!(t, qn), "Quat::from_mat3(Mat3::from_quat(q))", &q1.to_array(), &c.q, 2.0, eq, ctx)?;
+            logic::rot_entries::<$T>(cx!(t, m3n), "rot/roundtrip-matrix", "Mat3::from_quat(Quat::from_mat3(Mat3::from_quat(q)))", &$M3::from_quat(q1).to_cols_array(), r, 3.0, eq, ctx)?;
+            logic::rot_action::<$T>(cx!(t, qn), "Quat::from_mat3(Mat3::from_quat(q)) * v", &(q1 * v).to_array(), r, &c.v, 3.0, eq, ctx)?;
             let q2 = $Q::from_mat4(&m4);
-            logic::quat_same::<$T>(cx!(t, qn), "Quat::from_mat4(Mat4::from_quat(q))", &q2.to_array(), &c.q, 2.0, ctx)?;
-            logic::rot_entries::<$T>(cx!(t, m4n), "rot/roundtrip-matrix", "Mat4::from_quat(Quat::from_mat4(Mat4::from_quat(q)))", &block9(&$M4::from_quat(q2).to_cols_array()), r, 3.0, ctx)?;
+            logic::quat_same::<$T>(cx!(t, qn), "Quat::from_mat4(Mat4::from_quat(q))", &q2.to_array(), &c.q, 2.0, eq, ctx)?;
+            logic::rot_entries::<$T>(cx!(t, m4n), "rot/roundtrip-matrix", "Mat4::from_quat(Quat::from_mat4(Mat4::from_quat(q)))", &block9(&$M4::from_quat(q2).to_cols_array()), r, 3.0, eq, ctx)?;
             let q3 = $Q::from_affine3(&a);
-            logic::quat_same::<$T>(cx!(t, qn), "Quat::from_affine3(Affine3A::from_quat(q))", &q3.to_array(), &c.q, 2.0, ctx)?;
-            logic::rot_entries::<$T>(cx!(t, an), "rot/roundtrip-matrix", "Affine3A::from_quat(Quat::from_affine3(Affine3A::from_quat(q)))", &block9a(&$A::from_quat(q3).to_cols_array()), r, 3.0, ctx)?;
+            logic::quat_same::<$T>(cx!(t, qn), "Quat::from_affine3(Affine3A::from_quat(q))", &q3.to_array(), &c.q, 2.0, eq, ctx)?;
+            logic::rot_entries::<$T>(cx!(t, an), "rot/roundtrip-matrix", "Affine3A::from_quat(Quat::from_affine3(Affine3A::from_quat(q)))", &block9a(&$A::from_quat(q3).to_cols_array()), r, 3.0, eq, ctx)?;
 
             // conversion commutes with composition
             let qp = q * p;
-            logic::rot_entries::<$T>(cx!(t, m3n), "rot/compose", "Mat3::from_quat(q * p)", &$M3::from_quat(qp).to_cols_array(), rqp, 2.0, ctx)?;
-            logic::rot_entries::<$T>(cx!(t, m3n), "rot/compose", "Mat3::from_quat(q) * Mat3::from_quat(p)", &(m3 * $M3::from_quat(p)).to_cols_array(), rqp, 3.0, ctx)?;
-            logic::rot_entries::<$T>(cx!(t, m4n), "rot/compose", "Mat4::from_quat(q * p)", &block9(&$M4::from_quat(qp).to_cols_array()), rqp, 2.0, ctx)?;
-            logic::rot_entries::<$T>(cx!(t, m4n), "rot/compose", "Mat4::from_quat(q) * Mat4::from_quat(p)", &block9(&(m4 * $M4::from_quat(p)).to_cols_array()), rqp, 3.0, ctx)?;
-            logic::rot_entries::<$T>(cx!(t, an), "rot/compose", "Affine3A::from_quat(q * p)", &block9a(&$A::from_quat(qp).to_cols_array()), rqp, 2.0, ctx)?;
-            logic::rot_entries::<$T>(cx!(t, an), "rot/compose", "Affine3A::from_quat(q) * Affine3A::from_quat(p)", &block9a(&(a * $A::from_quat(p)).to_cols_array()), rqp, 3.0, ctx)?;
+            logic::rot_entries::<$T>(cx!(t, m3n), "rot/compose", "Mat3::from_quat(q * p)", &$M3::from_quat(qp).to_cols_array(), rqp, 2.0, ec, ctx)?;
+            logic::rot_entries::<$T>(cx!(t, m3n), "rot/compose", "Mat3::from_quat(q) * Mat3::from_quat(p)", &(m3 * $M3::from_quat(p)).to_cols_array(), rqp, 3.0, ec, ctx)?;
+            logic::rot_entries::<$T>(cx!(t, m4n), "rot/compose", "Mat4::from_quat(q * p)", &block9(&$M4::from_quat(qp).to_cols_array()), rqp, 2.0, ec, ctx)?;
+            logic::rot_entries::<$T>(cx!(t, m4n), "rot/compose", "Mat4::from_quat(q) * Mat4::from_quat(p)", &block9(&(m4 * $M4::from_quat(p)).to_cols_array()), rqp, 3.0, ec, ctx)?;
+            logic::rot_entries::<$T>(cx!(t, an), "rot/compose", "Affine3A::from_quat(q * p)", &block9a(&$A::from_quat(qp).to_cols_array()), rqp, 2.0, ec, ctx)?;
+            logic::rot_entries::<$T>(cx!(t, an), "rot/compose", "Affine3A::from_quat(q) * Affine3A::from_quat(p)", &block9a(&(a * $A::from_quat(p)).to_cols_array()), rqp, 3.0, ec, ctx)?;
             // ... and with inversion
-            logic::rot_entries::<$T>(cx!(t, m3n), "rot/inverse", "Mat3::from_quat(q.inverse())", &$M3::from_quat(q.inverse()).to_cols_array(), rt, 2.0, ctx)?;
-            logic::rot_entries::<$T>(cx!(t, m3n), "rot/inverse", "Mat3::from_quat(q).inverse()", &m3.inverse().to_cols_array(), rt, 2.0, ctx)?;
-            logic::rot_entries::<$T>(cx!(t, m4n), "rot/inverse", "Mat4::from_quat(q).inverse()", &block9(&m4.inverse().to_cols_array()), rt, 2.0, ctx)?;
-            logic::rot_entries::<$T>(cx!(t, an), "rot/inverse", "Affine3A::from_quat(q).inverse()", &block9a(&a.inverse().to_cols_array()), rt, 2.0, ctx)?;
+            logic::rot_entries::<$T>(cx!(t, m3n), "rot/inverse", "Mat3::from_quat(q.inverse())", &$M3::from_quat(q.inverse()).to_cols_array(), rt, 2.0, eq, ctx)?;
+            logic::rot_entries::<$T>(cx!(t, m3n), "rot/inverse", "Mat3::from_quat(q).inverse()", &m3.inverse().to_cols_array(), rt, 2.0, eq, ctx)?;
+            logic::rot_entries::<$T>(cx!(t, m4n), "rot/inverse", "Mat4::from_quat(q).inverse()", &block9(&m4.inverse().to_cols_array()), rt, 2.0, eq, ctx)?;
+            logic::rot_entries::<$T>(cx!(t, an), "rot/inverse", "Affine3A::from_quat(q).inverse()", &block9a(&a.inverse().to_cols_array()), rt, 2.0, eq, ctx)?;
 
-            rot3a!($T, t, c, q, p, r, rqp, rt, ctx);
+            rot3a!($T, t, c, q, p, r, rqp, rt, eq, ec, ctx);
             qcast!($T, t, c, q, ctx);
             Ok(())
         }
